@@ -710,8 +710,9 @@ func (x *expander) hoistList(list []ast.Expr, depth int) []ast.Stmt {
 // It qualifies when every return of the callee yields either that one local
 // variable or nil at the position, the types are identical, neither variable
 // has its address taken or is mentioned inside a function literal, and the
-// caller's variable is a plain local: then no code can tell the two apart.
-func (x *expander) shareResults(cl *cloner, as *ast.AssignStmt, body *ast.BlockStmt, typ *ast.FuncType, declared map[types.Object]bool) {
+// caller's variable is a plain local that the call's operands do not mention:
+// then no code can tell the two apart.
+func (x *expander) shareResults(cl *cloner, as *ast.AssignStmt, call *ast.CallExpr, body *ast.BlockStmt, typ *ast.FuncType, declared map[types.Object]bool) {
 	if typ.Results == nil {
 		return
 	}
@@ -780,6 +781,17 @@ func (x *expander) shareResults(cl *cloner, as *ast.AssignStmt, body *ast.BlockS
 		lo := x.objOf(id)
 		lv, isVar := lo.(*types.Var)
 		if !isVar || lv.IsField() || (lv.Pkg() != nil && lv.Parent() == lv.Pkg().Scope()) || !types.Identical(lv.Type(), v.Type()) {
+			continue
+		}
+		// the callee must not see the caller's variable under another name: `x = f(x)` reads x while building the result
+		operand := false
+		ast.Inspect(call, func(n ast.Node) bool {
+			if id, ok := n.(*ast.Ident); ok && x.info.Uses[id] == lo {
+				operand = true
+			}
+			return !operand
+		})
+		if operand {
 			continue
 		}
 		esc := x.escapesIn(x.top.Body, lo) || x.escapesIn(body, v)
@@ -972,7 +984,7 @@ func (x *expander) inline(call *ast.CallExpr, ctx *callCtx, depth int) ([]ast.St
 	// on the others) is accumulated directly in the caller's variable receiving it: `out := helper()` with
 	// `var acc []T; …; acc = append(acc, v); …; return acc` reads as if the caller had built `out` itself
 	if ctx.kind == ctxAssign && (ctx.assign.Tok == token.ASSIGN || ctx.assign.Tok == token.DEFINE) && os.Getenv("SIALINT_NOSHARE") == "" {
-		x.shareResults(cl, ctx.assign, srcBody, srcType, declared)
+		x.shareResults(cl, ctx.assign, call, srcBody, srcType, declared)
 	}
 	// named results
 	var named []types.Object
